@@ -124,4 +124,17 @@ PROPS = {
         assumptions=['timer firings are exercised with a real 2 ms delay and polling for the recorded bytes (result-deterministic); all other scripts use a one-hour delay so no timer fires',
                      'loopback cases use real localhost sockets with 10 s deadlines'],
     ),
+    'C17': dict(
+        harness='servicetrace', syn=True, args=['-prop', 'C17'], shards=dict(quick=8, thorough=16),
+        rule='the real client.Service on a fake clock (testing/synctest) against a scripted in-memory broker peer reached through Config.Dialer: scripted scenarios '
+             '(one per defect row 9/15/16/17 plus offline queueing, resubscribe, futures through the resumed session, restart, failure during resubscribe, full queue, inbound order) and '
+             'weighted random walks over {Publish/Subscribe/Unsubscribe, Start, Stop(true|false) pending on a helper goroutine, dial refused / CONNECT unsendable / no CONNACK / CONNACK denied, '
+             'hang-up, failing k-th write, SUBACK 0x80, no SUBACK during resubscribe, acks in/out of order and after a reconnect, inbound QoS 0/1/2 incl. a refusing callback, sleeps across every timeout}; '
+             'queue capacity 1-100, clean and persistent sessions, ValidateSubs on/off; every observation (packets written, callbacks, errors, futures, queue length, store ids, subscription tree, each with its fake time) '
+             'must be the next enabled output of the Lean service model; a second, concurrent mode (several API goroutines, autonomous broker) is judged by the monitors only; distinct = distinct traces',
+        assumptions=['one stimulus per quiescent point inside a testing/synctest bubble (go1.26); observations are compared per goroutine class (supervisor / processor / API caller / connection close), the order between classes is not',
+                     'combinations whose outcome depends on Go\'s random select (a Stop pending while commands are queued and the connection comes up) are exercised in the concurrent mode, where only the monitors judge',
+                     'the model variant is named by the harness flag -fixed (default 9,15,16,17 = all proposed repairs present in /repo)'],
+        trusted=['scripted broker peer and fake transport.Conn of gosyn/servicetrace', 'reflection on Service\'s private fields (queue length, store ids, subscription tree) at quiescence'],
+    ),
 }
